@@ -73,6 +73,24 @@ Second round (agents were told which kinds had already been caught and asked for
   unchanged tree).
 * `seeded/C08-r2c08-m2`/`m3`, `seeded/C07-r2c07-m3`: new typed corruptions `footer_extra_line`, `footer_junk_char`,
   `footer_big_number` (a numeric field replaced by 596524 ... 2^63-1) and the first-header count violations `h1_*` of v2+ files.
+
+Third round (C15 and C08 agents were told what the machinery evidently does and asked to get around it; C17/C19 second round):
+
+* `seeded/C15-r3c15-m1/m2/m3` (state in `static` atomics, wrong only under a cross-function overlap / after exactly 65 535
+  drops / with three threads on one slot): all three missed by every behavioural oracle and by 64 Miri seeds x 4 threads x 60 calls
+  at two preemption rates. Caught since by the direct comparison of the executable's static data and TLS block around every
+  call (`C15.static_write`, section 11) - at the first call that touches the memo.
+* `seeded/C08-r3c08-m1` (designation table cut at 256 octets): the writer never produced a table longer than 256. Large type
+  counts now sometimes come with ~40 distinct long names. `m2` (case-insensitive comparison in the footer consistency check):
+  added near-miss specs (last transition type differing from the rule's in letter case, offset +-1, DST flag, one character) that
+  the independent model classifies as violating. `m3` (`str::trim` strips Unicode white space): typed corruption
+  `footer_unicode_space` (NEL, NBSP, LINE SEPARATOR, IDEOGRAPHIC SPACE next to the TZ string).
+* `seeded/C19-r2c19-m2` (directory names trimmed only without `std`): `featsim` had no resolution path; added before this
+  mutant was measured, so it never counted as a miss - recorded here because without that addition it would have been one.
+* `seeded/C17-r2c17-*`, `seeded/C19-r2c19-m1/m3`: caught by the machinery as it was.
+
+Residual risk, stated plainly: a data race on state reached only through pointers (so that no static or TLS byte changes) that needs a
+preemption between two specific instructions is found by the Miri tier only with luck; tier A never preempts inside a call.
 """)
 s = open(os.path.join(V, "DESIGN.md")).read()
 i = s.find("## 12. Which checks catch which breakages")
